@@ -69,6 +69,8 @@ def decl_src(kind, pub, n, body_size):
         return "%sstruct S%d\n{\n\ta: i32,\n\tb: [4]&u8,\n}\n" % (p, n)
     if kind == "word":
         return "%sword32 W%d\n{\n\tlo: u16,\n\thi: u16,\n}\n" % (p, n)
+    if kind == "constcast":
+        return "%sconst Q%d: i64 = (%di32 as i64) + (|:[%d]u8| as i64);\n" % (p, n, n, n)
     if kind == "opaque":
         return "%sstruct O%d;\n" % (p, n)
     if kind == "import":
@@ -96,7 +98,7 @@ def main():
     rng = SplitMix64(rep.seed).fork("C17")
     thorough = rep.tier == "thorough"
     dist = collections.Counter()
-    kinds = ["fn", "head", "const", "struct", "word", "opaque"]
+    kinds = ["fn", "head", "const", "struct", "word", "opaque", "constcast"]
     options = [(k, p) for k in kinds for p in (True, False)]
     modules = []
     for n in range(1, (5 if thorough else 4) + 1):
@@ -157,7 +159,7 @@ def main():
             for (k, p, n, bs) in mod:
                 if hxml is None:
                     break
-                if not p and re.search(r'"(f|h|K|S|W|O)%d"' % n, hxml):
+                if not p and re.search(r'"(f|h|K|S|W|O|Q)%d"' % n, hxml):
                     problems.append("private declaration %d appears in the header" % n)
                 if k == "fn" and ("v%d_" % n) in hxml:
                     problems.append("statements of function f%d appear in the header" % n)
@@ -171,7 +173,7 @@ def main():
     rep.coverage.update({
         "evaluations": len(modules), "distinct_nontrivial": len(set(srcs)),
         "rule": "modules of 0..%d declarations: every interleaving of public / private functions with bodies, extern heads, "
-                "constants, structures, words and opaque structures (exhaustive up to 3, sampled at 4%s), plus random modules up to 9 "
+                "constants (plain and with casts / size-of), structures, words and opaque structures (exhaustive up to 3, sampled at 4%s), plus random modules up to 9 "
                 "declarations with bodies of 0..40 statements; for each: (i) the real flat node array is abstracted and fed to the "
                 "Lean buildHeader, whose output must equal the real header's node array; (ii) the header's XML must equal the "
                 "XML the real parser gives the module restricted to its public declarations (pub removed, bodies dropped); "
